@@ -23,6 +23,24 @@ typedef struct {
     int loop_depth;         /* Track if we're inside a loop (for break/continue validation) */
 } TypeChecker;
 
+/* Two parameters of one function must not have the same name.
+ * Reports each repeated name; returns true if there was one. */
+static bool report_duplicate_params(ASTNode *fn) {
+    bool found = false;
+    for (int j = 1; j < fn->as.function.param_count; j++) {
+        const char *name = fn->as.function.params[j].name;
+        for (int k = 0; name && k < j; k++) {
+            if (fn->as.function.params[k].name && strcmp(fn->as.function.params[k].name, name) == 0) {
+                fprintf(stderr, "Error at line %d, column %d: Function '%s' has two parameters named '%s'\n",
+                        fn->line, fn->column, fn->as.function.name, name);
+                found = true;
+                break;
+            }
+        }
+    }
+    return found;
+}
+
 static char *typeinfo_to_generic_arg_name(TypeInfo *param) {
     if (!param) return strdup("unknown");
 
@@ -3658,6 +3676,8 @@ static Type check_statement_impl(TypeChecker *tc, ASTNode *stmt) {
                 func.is_pub = false;
                 env_define_function(tc->env, func);
 
+                if (report_duplicate_params(stmt)) tc->has_error = true;
+
                 /* Type-check the function body */
                 if (stmt->as.function.body) {
                     for (int p = 0; p < stmt->as.function.param_count; p++) {
@@ -5469,6 +5489,8 @@ sdef.is_pub = item->as.struct_def.is_pub;            /* Propagate public visibil
             /* Save current symbol count for scope restoration */
             int saved_symbol_count = env->symbol_count;
 
+            if (report_duplicate_params(item)) tc.has_error = true;
+
             /* Add parameters to environment (create a scope) */
             for (int j = 0; j < item->as.function.param_count; j++) {
                 Value val = create_void();
@@ -6143,6 +6165,8 @@ sdef.is_pub = item->as.struct_def.is_pub;            /* Propagate public visibil
                 }
             }
             
+            if (report_duplicate_params(item)) tc.has_error = true;
+
             /* Add function parameters to environment */
             for (int j = 0; j < item->as.function.param_count; j++) {
                 Type param_type = item->as.function.params[j].type;
